@@ -668,6 +668,77 @@ def c11_extra(ctx):
 LINE_EXTRA["C11"] = c11_extra
 LINE_EXTRA["C19"] = c19_extra
 
+
+def c16_extra(ctx):
+    """property oracle on the implementation alone (independent of the model): integer-spelling invariance and
+    print/parse round trip.  (a) a line and its twin with every hex / octal integer token rewritten in decimal must
+    parse to the same instruction (class and printed form); (b) the printed form of every parsed supported instruction
+    must parse back to the same printed form and class."""
+    import avm
+    rng = ctx["rng"]
+    n = 1500 if ctx["tier"] == "quick" else 15000
+    ls = linegen.all_lines(rng, n)
+    pairs = []
+    seen = set()
+    for text, ver, kind in ls + linegen.all_lines(rng, 8 * n):
+        if text in seen:
+            continue
+        seen.add(text)
+        if '"' in text or kind in ("blank", "label"):
+            continue
+        body = text.split("//")[0]
+        toks = body.split()
+        if len(toks) < 2:
+            continue
+        new = [toks[0]]
+        changed = False
+        for t in toks[1:]:
+            if (t.startswith("0x") or (t.startswith("0") and len(t) > 1 and t.isdigit())) and toks[0] not in ("byte", "pushbytes", "bytecblock", "pushbytess", "method", "addr"):
+                try:
+                    new.append(str(avm.parse_int(t)))
+                    changed = True
+                    continue
+                except Exception:  # pylint: disable=broad-except
+                    pass
+            new.append(t)
+        if changed:
+            pairs.append((text, " ".join(new), ver))
+    reqs = []
+    for k, (a, b, ver) in enumerate(pairs):
+        reqs.append(("parseline", f"a{k}", a, [ver]))
+        reqs.append(("parseline", f"b{k}", b, [ver]))
+    _, i = corr.run_both(reqs)
+    nspell = 0
+    for k, (a, b, ver) in enumerate(pairs):
+        x, y = i[f"a{k}"], i[f"b{k}"]
+        nspell += 1
+        if not isinstance(x, dict) or not isinstance(y, dict):
+            continue
+        if ("err" in x) != ("err" in y) or x.get("cls") != y.get("cls") or x.get("str") != y.get("str"):
+            ctx["violations"].append((f"`{a.strip()}` and its decimal spelling `{b}` parse to different instructions: {x.get('cls')} `{x.get('str')}` {x.get('err', '')} vs {y.get('cls')} `{y.get('str')}` {y.get('err', '')}",
+                                      {"kind": "int-spelling", "line": a, "twin": b, "version": ver}))
+            break
+    # round trip through the printed form
+    _, i1 = corr.run_both([("parseline", f"l{k}", text, [ver]) for k, (text, ver, _) in enumerate(ls)])
+    again = [(k, i1[f"l{k}"]["str"], ver) for k, (text, ver, _) in enumerate(ls)
+             if isinstance(i1[f"l{k}"], dict) and "str" in i1[f"l{k}"] and i1[f"l{k}"].get("cls") not in (None, "UnsupportedInstruction") and i1[f"l{k}"]["str"]]
+    _, i2 = corr.run_both([("parseline", f"r{k}", st, [ver]) for k, st, ver in again])
+    nrt = 0
+    for k, st, ver in again:
+        nrt += 1
+        y = i2[f"r{k}"]
+        if not isinstance(y, dict):
+            y = {"err": "parsed to nothing"}
+        if y.get("str") != st or y.get("cls") != i1[f"l{k}"].get("cls"):
+            ctx["violations"].append((f"printed form `{st}` of `{ls[k][0].strip()}` parses back to {y.get('cls')} `{y.get('str')}` {y.get('err', '')}",
+                                      {"kind": "print-parse-roundtrip", "line": ls[k][0], "printed": st, "version": ver}))
+            break
+    ctx["cov"]["spelling_twin_cases"] = nspell
+    ctx["cov"]["roundtrip_cases"] = nrt
+
+
+LINE_EXTRA["C16"] = c16_extra
+
 def strs(x):
     if isinstance(x, list):
         return [strs(y) for y in x]
